@@ -421,6 +421,71 @@ def gen_cases(rng, tier):
                 chs = sorted({c for c in pool if rng.random() < 0.5})
                 tok = 'opc@' + (','.join(str(c) for c in chs) if chs else '-')
             yield '%s %d %s %s' % (tok, cap, hx(st), '/'.join(partitions(rng, len(st), marks, strided, coarse)))
+    # ---- the real serial entry point: a pseudo terminal opened through BaseUsbProWidget::OpenDevice();
+    # every byte value must come through the line discipline untouched (CR/NL, XON/XOFF, DEL, ^C, ^D, ^Z ...)
+    TTY_SPECIAL = (0x0a, 0x0d, 0x11, 0x13, 0x7f, 0x03, 0x04, 0x1a, 0x1c, 0x15, 0x16, 0x17, 0x00, 0xff, 0x08)
+    for proto in ('usbprotty', 'robetty'):
+        for i in range(40 if quick else 1200):
+            base = 'usbpro' if proto == 'usbprotty' else 'robe'
+            if i % 4 == 0:
+                # a frame whose payload holds every byte value, plus special bytes as label / type
+                data = list(range(256)) + rbytes(rng, rng.choice([0, 5, 100]), TTY_SPECIAL)
+                lab = rng.choice(TTY_SPECIAL)
+                st = usb_frame(lab, data) if base == 'usbpro' else robe_frame(lab, data)
+                st = st + st[:rng.choice([0, 0, 3])]
+                marks = [0, len(st)]
+            else:
+                st, marks = gen_stream(rng, base, False, types=list(TTY_SPECIAL) + [5, 6] if base == 'robe' else None)
+                st = [rng.choice(TTY_SPECIAL) if rng.random() < 0.25 else b for b in st] if i % 4 == 1 else st
+            st = st[:6000]
+            yield '%s 0 %s %s' % (proto, hx(st), '/'.join(partitions(rng, len(st), marks, len(st) > 3000, len(st) > 3000)))
+    # ---- several live instances of one framer, fed interleaved partial reads: each must behave as if alone
+    for proto in ('usbpro', 'robe', 'opc', 'acn'):
+        for i in range(50 if quick else 1500):
+            n = rng.choice([2, 2, 3])
+            streams, pieces = [], []
+            for k in range(n):
+                if proto == 'acn':
+                    st, marks = gen_acn(rng, False)
+                else:
+                    st, marks = gen_stream(rng, proto, False)
+                st = st[:3000]
+                streams.append(st)
+                total = len(st)
+                cuts = {rng.randrange(total + 1) for _ in range(rng.choice([1, 3, 8]))} if total else set()
+                for mk in marks:
+                    if rng.random() < 0.6:
+                        cuts.add(mk + rng.choice([1, 2, 3, 4, 5, 6]))
+                pts = [0] + sorted(c for c in cuts if 0 < c < total) + [total]
+                pieces.append([pts[j + 1] - pts[j] for j in range(len(pts) - 1)])
+            sched = []
+            idx = [0] * n
+            while any(idx[k] < len(pieces[k]) for k in range(n)):
+                k = rng.choice([k for k in range(n) if idx[k] < len(pieces[k])])
+                sched.append('%d:%d' % (k, pieces[k][idx[k]]))
+                idx[k] += 1
+            yield 'inter %s %s %s' % (proto, ','.join(hx(s) for s in streams), ','.join(sched) if sched else '0:0')
+    # ---- connection lifecycle on one long-lived OPC server: a client drops at any offset inside a frame,
+    # the next connection must be framed from a fresh state
+    for i in range(120 if quick else 3000):
+        tok = 'opc'
+        if rng.random() < 0.3:
+            tok = 'opc@' + ','.join(str(c) for c in sorted({0, 1, 255} - {rng.choice([0, 1, 255])}))
+        conns = []
+        for c in range(rng.choice([2, 2, 3])):
+            st, marks = gen_stream(rng, 'opc', False)
+            st = st[:2500]
+            marks = [x for x in marks if x < len(st)] + [len(st)]
+            if c == 0 or rng.random() < 0.5:
+                # cut inside a frame: at a header offset, one byte short of the end, or anywhere
+                m = rng.choice(marks[:-1]) if len(marks) > 1 else 0
+                nxt = min([x for x in marks if x > m] + [len(st)])
+                k = rng.choice([m + 1, m + 2, m + 3, m + 4, m + 5, nxt - 1, rng.randrange(m, max(m, nxt) + 1)])
+                st = st[:max(0, min(k, len(st)))]
+            total = len(st)
+            part = part_from_cuts(total, [rng.randrange(total + 1) for _ in range(rng.choice([0, 1, 3]))]) if total else '0'
+            conns.append('%s|%s' % (hx(st), part))
+        yield 'conns %s %s' % (tok, ';'.join(conns))
     # the real RobeWidget: labels with a handler (DMX in, RDM response, discovery response) and
     # without one, mixed in one stream
     for i in range(150 if quick else 2500):
@@ -498,6 +563,8 @@ def nontrivial(payload, md):
     or a Receive call that stored at least one byte after at least two read() calls"""
     if payload.startswith('recv'):
         return md.get('n', '0') not in ('0',) and payload.split(' ')[3].count(',') >= 1
+    if payload.startswith('inter ') or payload.startswith('conns '):
+        return any(md.get('m%d' % i, '-') not in ('-', '?') for i in range(4))
     if payload.startswith('opc@'):
         return 'm1' in md and md.get('s0') != md.get('s1') and len(payload) > 40
     if payload.startswith('rpc'):
@@ -536,7 +603,7 @@ LEVEL_TEXT = ('Coq theorems over executable models of the code, for all five fra
               'c10_*_bounds); any interleaving of data arrivals and callback invocations of a level-triggered poller '
               'delivers the same (c10_schedule_*). For OPC the set of channels with a registered callback is a parameter of model, reference framer and theorems (frames of unregistered channels are skipped and nothing read alongside them is lost: c10_opc_unregistered_skipped); the harness registers callbacks for generated subsets. The OPC theorems are stated for the linear-time machine the '
               'correspondence runs and rest on a proved simulation of the branch-for-branch model '
-              '(c10_opc_fast_refines). Further: the OPC capacity window over a connection history (c10_opc_capacity: CheckSize growth is sufficient and bounded), the Robe resynchronisation points (c10_robe_resync), the real RobeWidget label switch on top of the framer (table regenerated from the source, c10_robe_dispatch) and a real ACN RootInflator with and without child inflators behind the transport (c10_acn_root_chunk_free, c10_acn_root_skip), each also in the correspondence. Not covered by a theorem: RpcChannel buffer (re)allocation (C09), the Enttec widget label dispatch and the '
+              '(c10_opc_fast_refines). Further: the OPC capacity window over a connection history (c10_opc_capacity: CheckSize growth is sufficient and bounded), the Robe resynchronisation points (c10_robe_resync), the real RobeWidget label switch on top of the framer (table regenerated from the source, c10_robe_dispatch) and a real ACN RootInflator with and without child inflators behind the transport (c10_acn_root_chunk_free, c10_acn_root_skip), each also in the correspondence. The correspondence also runs USB Pro and Robe streams with every byte value through a pseudo terminal opened with BaseUsbProWidget::OpenDevice() (the real serial path incl. the tty line discipline), several live instances per framer fed interleaved partial reads (c10_instances_independent: each behaves as if alone) and a long-lived OPC server whose clients drop at any offset inside a frame before the next connection (each connection is framed from a fresh state). Not covered by a theorem: the tty line discipline itself, RpcChannel buffer (re)allocation (C09), the Enttec widget label dispatch and the '
               'protobuf parser itself.')
 LEVEL_NOTE = ('Trusted: Coq kernel, extraction (ExtrOcamlBasic), OCaml/C++ glue, the ld --wrap=read interposer, generator '
               'coverage of the correspondence (model = code is validated by differential testing on pipes/socket pairs '
